@@ -15,6 +15,9 @@ looks at STATE, never at time:
   * a plain sqlite3 connection can take the write lock (no SQLite-level lock left behind)
   * a follow-up write session in the same thread and one in a fresh thread succeed and their rows are in
     the file.
+Besides one-shot faults, every boundary call k is also used as the point where the connection DIES (that call and
+every later call on the same connection object fail, close() works): afterwards the pool must not hold that
+connection object, and no later session may be handed it again (identity of connection ids in the log).
 
 Multi-thread part: 2-3 workers run write sessions concurrently under the E4 scheduler at statement
 granularity with random faults; a schedule in which every live worker waits for the transaction lock is a
@@ -34,7 +37,8 @@ META = {
                   'Faults exist only at the DB-API boundary; shapes are a fixed finite list; PostgreSQL/MySQL/Oracle pools '
                   'are not exercised here (no servers).',
     'rule': 'case = (session shape, pool cold|warm, first fault (k, before|after), optional second fault (j, before|after) '
-            'counted from the first); k and j run over every boundary event observed in a clean run of the shape; a case is '
+            'counted from the first) or (shape, pool state, connection dies at call k and stays dead); k and j run over every '
+            'boundary event observed in a clean run of the shape; a case is '
             'non-trivial only if its first fault actually fired; multi-thread cases = (worker programs, schedule signature, '
             'fault sequence)',
     'assumptions': [
@@ -599,9 +603,12 @@ def prime(env, cold):
 
 
 def build_faults(plan):
-    from vlib.faults import SeqFault, AfterFault
+    from vlib.faults import SeqFault, AfterFault, DeadConnFault
     faults = []
     f1 = None
+    if plan.get('dead'):
+        # the connection used by the k-th boundary call dies there and stays dead
+        return [DeadConnFault(plan['dead'], phase='call', skip_tags=('monitor', 'followup'))]
     if plan.get('f1'):
         k, ph = plan['f1']
         f1 = SeqFault(k, phase=ph, exc=make_exc(plan.get('exc', 'OperationalError'), 'first fault'))
@@ -639,6 +646,17 @@ def run_case(env, shape, cold, plan, followups=True):
     finally:
         rec.tag(None)
         del rec.faults[:]
+    dead = faults[0].dead_conn if plan.get('dead') and faults[0].fired else None
+    if dead is not None:
+        rec.faults.append(faults[0])         # a dead connection stays dead for the monitor and for later sessions
+    res['dead_conn'] = dead
+    res['calls_on_dead'] = faults[0].calls_on_dead if dead is not None else 0
+    if dead is not None:
+        # did it die while SQLitePool._connect was still configuring it?  (= before its last PRAGMA returned)
+        s0 = faults[0].fired_seq
+        res['died_during_connect'] = not any(
+            e['conn'] == dead and e['seq'] < s0 and e['kind'] == 'execute' and e['phase'] == 'ret'
+            and (e.get('sql') or '').startswith('PRAGMA case_sensitive_like') for e in rec.events)
     res['raised'] = exc
     res['shared_conn'] = env.shared_conn
     res['fired'] = [f.fired_event for f in faults if f.fired]
@@ -656,18 +674,31 @@ def run_case(env, shape, cold, plan, followups=True):
         res['first_sql'] = faults[0].fired_event['sql']
     cmap = conn_db_map(env, events)
     res['fault_dbs'] = sorted(set(cmap.get(f.fired_event['conn'], '?') for f in faults if f.fired))
-    probs, lock_held = post_session_checks(env, events, observations, 'after_session')
-    res['problems'] += probs
-    if followups and not lock_held:
-        fp = run_followups(env, observations)
-        for p in fp: p['stage'] = 'followup'
-        res['problems'] += fp
-        if not fp:
-            from vlib.faults import conn_discipline
-            p2 = lock_problems(env) + thread_state_problems(env)
-            d2, _ = conn_discipline(list(rec.events))
-            for p in p2 + d2: p['stage'] = 'after_followup'
-            res['problems'] += p2 + d2
+    try:
+        probs, lock_held = post_session_checks(env, events, observations, 'after_session')
+        if dead is not None and dead in pooled_ids(env):
+            probs.append({'problem': 'pool_holds_dead_connection', 'conn': dead, 'stage': 'after_session'})
+        res['problems'] += probs
+        if followups and not lock_held:
+            n0 = len(rec.events)
+            fp = run_followups(env, observations)
+            for p in fp: p['stage'] = 'followup'
+            res['problems'] += fp
+            if dead is not None:
+                # identity at the boundary: the connection object that died must never be handed to a later session
+                again = [e for e in rec.events[n0:] if e['conn'] == dead and e['phase'] == 'call' and e['kind'] != 'close']
+                if again:
+                    from vlib.faults import brief
+                    res['problems'].append({'problem': 'dead_connection_handed_out_again', 'conn': dead, 'n': len(again),
+                                            'first': brief(again[0]), 'stage': 'followup'})
+            if not fp:
+                from vlib.faults import conn_discipline
+                p2 = lock_problems(env) + thread_state_problems(env)
+                d2, _ = conn_discipline(list(rec.events))
+                for p in p2 + d2: p['stage'] = 'after_followup'
+                res['problems'] += p2 + d2
+    finally:
+        del rec.faults[:]
     return res
 
 
@@ -788,6 +819,7 @@ def run_mt_case(ctx, env, rng, nworkers, nsess, p_fault, scheduled):
 
 FINDING_MULTIDB = 'C19-MULTIDB-EXIT-LEAVES-CACHE'
 FINDING_GENSHARE = 'C19-SUSPENDED-GENERATOR-SHARES-POOLED-CONNECTION'
+FINDING_CONNECT = 'C19-FAILED-CONNECT-LEAVES-CONNECTION-IN-POOL'
 TWO_DB_SHAPES = ('two_db', 'two_db_raises')
 
 
@@ -811,6 +843,14 @@ def classify(res):
     problem is a non-empty db2cache after a two-database shape (plus the AssertionError the next session with
     another db_session object gets from that stale cache); the session raised; the injected fault(s) hit a
     connection of a database other than the one whose cache was left."""
+    if res.get('dead_conn') is not None and res.get('died_during_connect') and res.get('raised') and res['problems'] and all(
+            p['problem'] in ('pool_holds_dead_connection', 'dead_connection_handed_out_again', 'pooled_connection_unusable',
+                             'followup_same_thread_failed') for p in res['problems']):
+        # Mechanism 3: SQLitePool._connect stores the new connection in pool.con BEFORE it has configured it; when the
+        # connection dies during that configuration (the PRAGMA statements) the exception leaves the dead object in the
+        # pool, and Pool.connect hands it to every later session of the thread.  Identified by: the connection died before
+        # its last configuration PRAGMA returned, and the only problems are "the pool holds / hands out that connection".
+        return FINDING_CONNECT
     shared = res.get('shared_conn')
     if shared is not None and res['problems'] and res.get('raised') and all(
             p['problem'] in ('use_after_close', 'second_close') and p['conn'] == shared for p in res['problems']):
@@ -893,10 +933,14 @@ def single_thread_part(ctx, env_holder, runner_holder, shapes, two_fault, exc_cl
                 ctx.inconclusive.append('watchdog fired in %s %s without the lock being held' % (shape, plan))
             return None
         res = val
-        if plan.get('f1') and not res['n_fired']:
+        if (plan.get('f1') or plan.get('dead')) and not res['n_fired']:
             ctx.count('plans_not_reached'); return res
-        nontrivial = bool(res['n_fired']) or not plan.get('f1')
-        ctx.case(['st', shape, cold, plan.get('f1'), plan.get('f2'), plan.get('exc')], nontrivial=nontrivial,
+        nontrivial = bool(res['n_fired']) or not (plan.get('f1') or plan.get('dead'))
+        if plan.get('dead'):
+            ctx.count('dead_connection_plans_hit')
+            ctx.count('dead_connection_calls_refused', res.get('calls_on_dead', 0))
+            ctx.count('outcome.dead.session_raised' if res['raised'] else 'outcome.dead.session_did_not_notice')
+        ctx.case(['st', shape, cold, plan.get('f1'), plan.get('f2'), plan.get('exc'), plan.get('dead')], nontrivial=nontrivial,
                  sample={'shape': shape, 'cold': cold, 'plan': plan, 'fired': res['fired'], 'raised': res['raised']})
         record(ctx, res, kind)
         if plan.get('f1'):
@@ -924,6 +968,10 @@ def single_thread_part(ctx, env_holder, runner_holder, shapes, two_fault, exc_cl
         ctx.count('clean_runs')
         ctx.count('boundary_calls_in_clean_runs', clean['n_call'])
         for k in clean['kinds']: ctx.count('clean_kind.' + k)
+        # a connection that dies at call k and stays dead (every later call on that connection object fails)
+        for k in range(1, clean['n_call'] + 1):
+            if enough(): break
+            do(shape, cold, {'dead': k}, 'dead_connection')
         for ph, n in (('call', clean['n_call']), ('ret', clean['n_ret'])):
             for k in range(1, n + 1):
                 if enough(): break
@@ -993,6 +1041,7 @@ def run(ctx):
 
     # floors are per shard: every shard owns at least one (shape, pool state) item
     ctx.floor('fault_points_hit', 20 if mine else 0)
+    ctx.floor('dead_connection_plans_hit', 10 if mine else 0)
     ctx.floor('followup_pairs_ok', 20 if mine else 0)
     ctx.floor('mt_cases', (mt_sched + mt_free) // 2)
 
